@@ -1,5 +1,5 @@
 (* C07 - Consumer offsets are exact, isolated per consumer and partition, and durable. *)
-From IggyV Require Import Base.Tactics Base.ListX Model.Part Model.PartSpec Proofs.PartBasics Proofs.PartHistory Proofs.OffsetsHistory Proofs.PartCounts Proofs.CacheHistory Proofs.ReadExact Proofs.ReadPart Proofs.ReadHistory Proofs.ExpiryBasics Proofs.ExpiryHistory.
+From IggyV Require Import Base.Tactics Base.ListX Model.Part Model.PartSpec Proofs.PartBasics Proofs.PartHistory Proofs.OffsetsHistory Proofs.PartCounts Proofs.CacheHistory Proofs.ReadExact Proofs.ReadPart Proofs.ReadHistory Proofs.ExpiryBasics Proofs.ExpiryHistory Proofs.DedupHistory Proofs.Refine.
 Open Scope N_scope.
 
 Definition C07_full : Prop := forall c t0 ops, model_check c t0 ops = 0.
@@ -52,6 +52,14 @@ Proof.
   intros ops c t0 Hseg Ht Hb. cbn zeta. destruct (history_E0 ops c t0 Hseg Ht Hb) as [HE _]. exact (o_bound _ (e_O _ _ _ HE)).
 Qed.
 
+(* PROVED - REFINEMENT (Proofs/Refine.v): the specification monitor accepts EVERY run of the model, i.e. for every operation
+   list get returns exactly what the last store / auto-commit put there, stores above the current offset are refused, deletes and purges remove, next-polls resume after the stored offset.  This is C07_full under the guards the real code itself enforces or the model needs: segment size > 0, poll counts >= 1
+   (System::poll_messages refuses count 0 before the partition is reached), offsets and log files below 2^32 (32-bit index
+   fields), send timestamps non-zero and never going backwards; by-timestamp polls are the one operation kind left out. *)
+Theorem C07_refinement : forall ops c t0, 0 < c_seg c -> times_ok 0 ops -> Forall poll_ok ops ->
+  Forall bounds_ok (prun_states (c, part_new c t0) ops) -> model_check c t0 ops = 0.
+Proof. exact model_refines_spec. Qed.
+
 Print Assumptions C07_store_get.
 Print Assumptions C07_bound.
 Print Assumptions C07_delete.
@@ -59,3 +67,4 @@ Print Assumptions C07_durable.
 Print Assumptions C07_purge_removes.
 Print Assumptions C07_history_partial.
 Print Assumptions C07_history_expiry_partial.
+Print Assumptions C07_refinement.
